@@ -153,7 +153,7 @@ func checkC04(c PairCase, r *rec.Rec) error {
 
 func init() { Register("C04", "random", checkC04); Register("C04", "exhaustive", checkC04) }
 
-var c04OptSets = []string{"list", "set", "mset", "setkeys:id"}
+var c04OptSets = []string{"list", "set", "mset", "setkeys:id", "set+mset", "mset+set"}
 var c04Eps = []float64{0.1, 0.5, 1, 1e-9, 0.001}
 
 // injectConfusables replaces some leaves and elements by confusable values.
@@ -254,6 +254,13 @@ func genEqPair(t *rapid.T, optSets []string, withPrecision bool) PairCase {
 		return PairCase{A: val.JSON(a), B: val.JSON(b), Opts: opts}
 	}
 	opts = gen.Pick(t, "opts", optSets)
+	if gen.Chance(t, "hashShape", 3) && jdx.SetKeysOf(opts) == nil {
+		a, b := hashShapePair(t)
+		if jdx.IsMerge(opts) {
+			a, b = stripNulls(a), stripNulls(b)
+		}
+		return PairCase{A: val.JSON(a), B: val.JSON(b), Opts: opts}
+	}
 	p := profileFor(opts)
 	p.Floats = gen.Chance(t, "floats", 30)
 	a := gen.Doc(t, p)
